@@ -324,13 +324,41 @@ def lib_np_array(eng, st, args, kw, node):
     """np.array(sequence of scalars): a fresh array with the same elements in the same order (value conversion between
     python and numpy scalars is the identity of the abstract value sort)"""
     a = args[0]
-    if len(args) == 1 and not kw and a.t[0] in ("list", "nd") and a.t[1][0] in ("val", "float", "int"):
+    if len(args) == 1 and not kw and a.t[0] in ("list", "nd") and a.t[1][0] in ("val", "float", "int", "bool"):
         eng.ctx.tags.add("AX_numpy_array_keeps_the_elements")
         return st.new_seq(a.t[1], "nd", st.seq_len(a), st.seq_elems(a), "nparray")
     raise Unsupported(f"np.array of {a.t}")
 
 
 LIB[("numpy", "array")] = lib_np_array
+
+
+def lib_np_any(eng, st, args, kw, node):
+    """np.any(array of booleans): some element is true (False for the empty array)"""
+    a = args[0]
+    if len(args) == 1 and not kw and a.t[0] in ("list", "nd") and a.t[1][0] == "bool":
+        eng.ctx.tags.add("AX_numpy_any_is_exists")
+        i = z3.Int(eng.ctx.fresh_name("anyi"))
+        el = st.seq_elems(a)
+        return V(("bool",), z3.Exists([i], z3.And(i >= 0, i < st.seq_len(a), el[i])))
+    raise Unsupported(f"np.any of {a.t}")
+
+
+LIB[("numpy", "any")] = lib_np_any
+
+
+def lib_np_all(eng, st, args, kw, node):
+    """np.all(array of booleans): every element is true (True for the empty array)"""
+    a = args[0]
+    if len(args) == 1 and not kw and a.t[0] in ("list", "nd") and a.t[1][0] == "bool":
+        eng.ctx.tags.add("AX_numpy_all_is_forall")
+        i = z3.Int(eng.ctx.fresh_name("alli"))
+        el = st.seq_elems(a)
+        return V(("bool",), qforall([i], z3.Implies(z3.And(i >= 0, i < st.seq_len(a)), el[i])))
+    raise Unsupported(f"np.all of {a.t}")
+
+
+LIB[("numpy", "all")] = lib_np_all
 def lib_deepcopy(eng, st, args, kw, node):
     """copy.deepcopy of an immutable scalar is the value itself; of a flat sequence of scalars a fresh sequence with the same elements"""
     v = args[0]
